@@ -37,6 +37,17 @@ Proof.
 Qed.
 Print Assumptions c19_order_is_ieee.
 
+(* Per-metric modes: MOASHA hands the priority the vector [metric_dict modes v] (each "max" metric negated,
+   -(+inf) = -inf). One trial dominates another on these vectors exactly when it is at least as good in every
+   metric UNDER THAT METRIC'S OWN MODE and strictly better in one: maximising a metric is minimising its negation. *)
+Theorem c19_modes_are_signs :
+  forall (modes : list bool) (a x : vec), length a = length x ->
+    (Dom (metric_dict modes a) (metric_dict modes x) <->
+     (forall k, (k < length a)%nat -> better_eq (nth k modes true) (nth k a xzero) (nth k x xzero)) /\
+     exists k, (k < length a)%nat /\ better (nth k modes true) (nth k a xzero) (nth k x xzero)).
+Proof. exact dom_metric_dict. Qed.
+Print Assumptions c19_modes_are_signs.
+
 (* The non-dominated sort, for EVERY order inside a layer ([eps] arbitrary
    permutation = whatever compute_epsilon_net returns): every index once, and
    the output is the concatenation of the Pareto layers (front of all points,
@@ -162,3 +173,10 @@ Example c19_example_inf :
   pareto_efficient X = [true; false; false; true] /\
   nondominated_sort_flat (fun l => l) X = [0;3;1;2]%nat.
 Proof. vm_compute. split; reflexivity. Qed.
+
+(* ... and per-metric modes: (cost 1, accuracy 0.9) dominates (cost 2, accuracy 0.8) under modes [min; max] *)
+Example c19_example_modes :
+  dom (metric_dict [true; false] (fins [1; 9#10])) (metric_dict [true; false] (fins [2; 8#10])) = true /\
+  dom (metric_dict [true; true] (fins [1; 9#10])) (metric_dict [true; true] (fins [2; 8#10])) = false /\
+  metric_dict [true; false] [Fin 1; PInf] = [Fin 1; NInf].
+Proof. vm_compute. repeat split. Qed.
